@@ -764,11 +764,13 @@ impl Words4 for u64x4_generic {
     }
     #[inline(always)]
     fn shuffle1230(self) -> Self {
-        unimplemented!()
+        let x: [u64; 4] = self.to_lanes();
+        Self::from_lanes([x[3], x[0], x[1], x[2]])
     }
     #[inline(always)]
     fn shuffle3012(self) -> Self {
-        unimplemented!()
+        let x: [u64; 4] = self.to_lanes();
+        Self::from_lanes([x[1], x[2], x[3], x[0]])
     }
 }
 
